@@ -4742,6 +4742,11 @@ class TLSConnection(TLSRecordLayer):
             try:
                 # Find a suitable ciphersuite based on the certificate
                 ciphers = CipherSuite.filter_for_certificate(cipher_suites, cert)
+                # EdDSA signatures are defined for TLS 1.2 and later only,
+                # such a key can't sign the Server Key Exchange of TLS 1.1
+                if version < (3, 3) and cert and \
+                        cert.x509List[0].certAlg in ("Ed25519", "Ed448"):
+                    ciphers = []
                 # but if we have matching PSKs, prefer those
                 if settings.pskConfigs and client_psks:
                     client_identities = [
